@@ -559,6 +559,7 @@ type Result struct {
 	Out     []byte `json:"-"`             // bytes the destination accepted during the call
 	Calls   int    `json:"calls"`         // destination Write calls during the call
 	SrcLeft int    `json:"srcleft,omitempty"`
+	DestFailed bool `json:"dest_failed,omitempty"` // the destination's planned fault has happened (during this call or before)
 	Runaway bool   `json:"runaway,omitempty"` // ReadFrom kept reading a stalling source until the harness stopped it
 	Before  View   `json:"before"`
 	After   View   `json:"after"`
@@ -638,6 +639,7 @@ func (e *Exec) Do(a Action) Result {
 		panic("wh: unknown action " + a.Kind)
 	}
 	r.After = ViewOf(e.W)
+	r.DestFailed = e.Rec.Failed
 	for _, c := range e.Rec.Calls[e.mark:] {
 		r.Out = append(r.Out, c...)
 	}
